@@ -98,9 +98,10 @@ fn trimmed_window(map: &BTreeMap<u32, u16>, max_code: u32, ch: &mut Chooser) -> 
 
 pub fn format6(map: &BTreeMap<u32, u16>, language: u16, ch: &mut Chooser) -> Encoded {
     let (first, v) = trimmed_window(map, 0xFFFF, ch);
-    assert!(v.len() <= 0x7FF0, "format 6 window too large");
+    assert!(v.len() <= 0xFFFF, "format 6 window too large");
     let mut b = Buf::new();
-    b.u16(6).u16((10 + 2 * v.len()) as u16).u16(language).u16(first as u16).u16(v.len() as u16);
+    // the 16-bit length field cannot describe more than 32762 entries; entryCount governs
+    b.u16(6).u16((10 + 2 * v.len()).min(0xFFFF) as u16).u16(language).u16(first as u16).u16(v.len() as u16);
     for g in &v {
         b.u16(*g);
     }
@@ -638,6 +639,40 @@ pub fn format2_unambiguous(leads: &BTreeSet<u8>, code: u32) -> bool {
     } else {
         leads.contains(&((code >> 8) as u8))
     }
+}
+
+// ---------------------------------------------------------------------------------------------
+// raw subtables for count / width boundaries that a code -> glyph model cannot express
+
+/// format 6 with the given firstCode and glyph array, unchecked (firstCode + entryCount may
+/// exceed 0x10000)
+pub fn format6_raw(first: u16, gids: &[u16]) -> Vec<u8> {
+    let mut b = Buf::new();
+    b.u16(6).u16((10 + 2 * gids.len()).min(0xFFFF) as u16).u16(0).u16(first).u16(gids.len() as u16);
+    for g in gids {
+        b.u16(*g);
+    }
+    b.into_vec()
+}
+
+/// format 10 with the given startCharCode and glyph array
+pub fn format10_raw(first: u32, gids: &[u16]) -> Vec<u8> {
+    let mut b = Buf::new();
+    b.u16(10).u16(0).u32((20 + 2 * gids.len()) as u32).u32(0).u32(first).u32(gids.len() as u32);
+    for g in gids {
+        b.u16(*g);
+    }
+    b.into_vec()
+}
+
+/// format 12 from explicit (startCharCode, endCharCode, startGlyphID) groups, unchecked
+pub fn format12_raw(groups: &[(u32, u32, u32)]) -> Vec<u8> {
+    let mut b = Buf::new();
+    b.u16(12).u16(0).u32(16 + 12 * groups.len() as u32).u32(0).u32(groups.len() as u32);
+    for g in groups {
+        b.u32(g.0).u32(g.1).u32(g.2);
+    }
+    b.into_vec()
 }
 
 // ---------------------------------------------------------------------------------------------
